@@ -531,10 +531,25 @@ func (c *caseSpec) judge(t fatalf, rs *runState, stuck string, final []taskFinal
 	// closes it. (Goroutine ids would tell the handlers apart exactly; reading them costs a stack walk under the task lock,
 	// which made the known slow-watcher stall of the queue - a minute each - frequent.)
 	qOpen, sOpen := "", ""
+	// qRunning: the task that the queue handler started last and that has not returned yet. The queue handler starts the
+	// next one only after that (or after a cancel, or the execution-wait limit); what the schedule handler starts itself
+	// because a maximum delay expired runs beside it and is not held to this.
+	qRunning, qRunningCancelled := "", false
+	var qRunningSince time.Time
 	for _, e := range evs {
 		s := st[e.task]
 		if s == nil {
 			continue
+		}
+		switch e.kind {
+		case "returned":
+			if e.task == qRunning {
+				qRunning = ""
+			}
+		case "cancel-return":
+			if e.task == qRunning {
+				qRunningCancelled = true
+			}
 		}
 		switch e.kind {
 		case "popped":
@@ -547,8 +562,13 @@ func (c *caseSpec) judge(t fatalf, rs *runState, stuck string, final []taskFinal
 			switch {
 			case qOpen == e.task && sOpen == e.task:
 				s.held = true // one of the two admitted it, the other still holds it
+				qRunning = "" // (who started what is not known from here on until the next clear start)
 			case qOpen == e.task:
 				qOpen, s.held = "", false
+				if qRunning != "" && qRunning != e.task && !qRunningCancelled && e.at.Sub(qRunningSince) < 50*time.Second {
+					fail("C07-5-serial", "the queue handler started %s (seq %d) while %s, which it had started before, had not returned (no cancel, no execution-wait limit)", e.task, e.seq, qRunning)
+				}
+				qRunning, qRunningCancelled, qRunningSince = e.task, false, e.at
 			case sOpen == e.task:
 				sOpen, s.held = "", false
 			default:
